@@ -52,12 +52,26 @@ class BuiltinMixin:
         el = elem_of(v) if (v.elem is not None or v.tup) else BOTTOM
         key = kw.get("key")
         if key is not None and not el.is_bottom:
-            self.call_value(key, [el], {}, None, None, node, env, frame)
-        elif not el.is_bottom and el.is_json and el.taint == 2:
+            kv = self.call_value(key, [el], {}, None, None, node, env, frame)
+            if self._unorderable(kv):
+                self.raise_exc(frame, "TypeError", node, env, True, reason="ordering by a key made of input nodes of unknown type")
+        elif not el.is_bottom and self._unorderable(el):
             self.raise_exc(frame, "TypeError", node, env, True, reason="ordering input nodes of unknown type")
         if "reverse" in kw:
             pass
         return replace(v, tup=None, elem=el if not el.is_bottom else None)
+
+    def _unorderable(self, v, depth=3):
+        """v (or a component compared lexicographically) is an input node of unknown type."""
+        if v is None or v.is_bottom:
+            return False
+        if v.is_json and v.taint == 2:
+            return True
+        if depth > 0 and v.types & {"tuple", "list"}:
+            for s_ in v.subvalues():
+                if self._unorderable(s_, depth - 1):
+                    return True
+        return False
 
     def bf_reversed(self, pos, kw, star, node, env, frame):
         v = self.bf_list(pos, kw, star, node, env, frame)
@@ -122,6 +136,9 @@ class BuiltinMixin:
                 self.raise_exc(frame, "TypeError", node, env, True, reason=f"{tag}() of input value")
             elif v.types & {"str"} and not v.has_const:
                 self.raise_exc(frame, "ValueError", node, env, bool(v.taint), reason=f"{tag}() of a string")
+            elif tag == "int" and v.taint and v.types & {"float"}:
+                # a float derived from the input may be inf / nan (e.g. float("inf"), float("1e999"))
+                self.raise_many(frame, ("OverflowError", "ValueError"), node, env, True, reason="int() of a float derived from the input (inf / nan)")
         return AVal(types=frozenset({tag}), taint=_t(*pos))
 
     def bf_float(self, pos, kw, star, node, env, frame):
